@@ -24,10 +24,17 @@ def _lsp():
     return types
 
 
-def _conv():
-    from lsprotocol import converters
+_CONV = None
 
-    return converters.get_converter()
+
+def _conv():
+    """one shared converter for all concrete replays of a run (as applications use it)"""
+    global _CONV
+    if _CONV is None:
+        from lsprotocol import converters
+
+        _CONV = converters.get_converter()
+    return _CONV
 
 
 # ------------------------------------------------------------------ generic oracles
